@@ -11,7 +11,7 @@ import walk_impl
 
 META = {
     'theorem_files': ['Props/C05.v'],
-    'theorems': [],
+    'theorems': ['C05_997_content', 'C05_999_content', 'C05_997_spec_defaults_unused', 'C05_names_every_group_and_set', 'C05_names_every_group_and_set_999', 'C05_tree_is_visited', 'C05_set_accepted_iff_no_counted_error', 'C05_set_accepted_iff_no_counted_error_999', 'C05_group_totals', 'C05_group_totals_999', 'C05_group_totals_origin', 'C05_verdict_definition', 'C05_error_count_zero_iff_clean', 'C05_error_free_all_accepted', 'C05_st_element_error_not_counted_is_false', 'C05_gs_element_error_acknowledged_A_is_false', 'C05_unclosed_group_totals_is_false'],
     'trusted_base': [
         'Coq 8.16.1 kernel; no native_compute',
         'Model/Pipeline.v, Driver.v, Errh.v, Ack997.v, Ack999.v: hand transcriptions — tied by this run (whole documents with the '
